@@ -16,8 +16,8 @@ def sh(cmd, timeout=3600):
     return p.returncode, p.stdout + p.stderr
 
 def demo_cmds():
-    fails = [c for c in meta["commands"] if re.search(r"#.*FAIL", c)]
-    passes = [c for c in meta["commands"] if re.search(r"#.*PASS", c)]
+    fails = [c for c in meta["commands"] if re.search(r"#.*\bFAIL(S|ED)?\b", c, re.I)]
+    passes = [c for c in meta["commands"] if re.search(r"#.*\bPASS(ES|ED)?\b", c, re.I)]
     strip = lambda c: c.split("#")[0].strip()
     return [strip(c) for c in fails], [strip(c) for c in passes]
 
